@@ -401,6 +401,8 @@ class Stats:
         self.unknown = {}      # tag -> (case, answer, why, count) shortest failing case not in known_findings
         self.known_hit = {}    # finding id -> (entry, case, count)
         self.head, self.tail = [], []
+        self.cur = None        # (phase dict, tier, seed, scale) of the run_phase call in progress
+        self.origin = {}       # tag -> the `cur` under which its representative case was produced
 
     def add(self, c, a):
         self.n += 1
@@ -435,6 +437,7 @@ class Stats:
                 e = self.unknown.get(tag)
                 if e is None or len(c) < len(e[0]):
                     self.unknown[tag] = (c, a, why, (e[3] if e else 0) + 1)
+                    self.origin[tag] = self.cur
                 else:
                     self.unknown[tag] = (e[0], e[1], e[2], e[3] + 1)
         m = re.search(r"note=(\S+)", a)
@@ -578,6 +581,7 @@ def main(argv):
     st = Stats(pid, known)
     if can_run:
         for ph in phases:
+            st.cur = (ph, tier, seed, scale)
             res = run_phase(cfg, exe, oracle_exe, ph, tier, seed, scale, workdir, on_line=st.add)
             harness_errors += ["%s: %s" % (res["phase"], e) for e in res["errors"]]
             phase_stats.append({"phase": res["phase"], "cases": res["cases"], "driver_s": res["driver_s"]})
@@ -595,6 +599,7 @@ def main(argv):
         for ph in sp:
             ph = dict(ph)
             ph.setdefault("timeout", 1500)
+            st.cur = (ph, tier if has_search else "thorough", seed + 1000, 10)
             res = run_phase(cfg, exe, oracle_exe, ph, tier if has_search else "thorough", seed + 1000, 10, workdir, on_line=st.add)
             phase_stats.append({"phase": "search:" + res["phase"], "cases": res["cases"], "driver_s": res["driver_s"]})
             if st.unknown:
@@ -605,6 +610,7 @@ def main(argv):
     # is re-executed ALONE (some observations are watchdog- or deadline-based: a deadlock verdict taken on a
     # loaded machine must reproduce; a deterministic failure always does)
     unconfirmed = {}
+    by_phase = {}
     judge_exe = oracle_exe
     if st.unknown and can_run:
         # the spec verdict must not depend on facts the extractor could no longer find (a rename makes constants
@@ -625,6 +631,26 @@ def main(argv):
                 if any(("spec=FAIL" in a_) for a_ in got) or (not got and res["errors"]):
                     reproduced = True
                     break
+            if not reproduced and st.origin.get(tag):
+                # some failures need the history of the process (an earlier case of the same run): re-run the phase
+                # that produced the case, same seed and budget, and look for the SAME case failing again
+                ph0, tier0, seed0, scale0 = st.origin[tag]
+                key = c.split(" => ")[0]
+                hit, same_tag = [], []
+                def again(cc, aa, key=key, hit=hit, same_tag=same_tag, tag=tag):
+                    if "spec=FAIL:%s:" % tag in aa:
+                        same_tag.append(cc)
+                        if cc.split(" => ")[0] == key:
+                            hit.append(aa)
+                run_phase(cfg, exe, judge_exe, dict(ph0), tier0, seed0, scale0, workdir, on_line=again)
+                # the same case again — or, for schedule-dependent failures (several cases failed with this tag in
+                # the first run), the same tag again on some case: then that case becomes the replay
+                reproduced = bool(hit) or (cnt >= 2 and bool(same_tag))
+                if reproduced and not hit:
+                    c = min(same_tag, key=len)
+                    st.unknown[tag] = (c, "spec=FAIL:%s:%s (failed in two executions of the phase; schedule-dependent)" % (tag, why), why, cnt)
+                if reproduced:
+                    by_phase[tag] = "phase '%s' (tier %s, seed %d, budget x%d)" % (ph0.get("name", "") or "main", tier0, seed0, scale0)
             if not reproduced:
                 unconfirmed[tag] = (c, ans, why, cnt)
         for tag in unconfirmed:
@@ -641,6 +667,8 @@ def main(argv):
     if st.unknown:
         for tag, (c, ans, why, cnt) in sorted(st.unknown.items()):
             body = "# property %s fails on the implementation (spec verdict by the Lean oracle)\n# tag=%s reason=%s (%d failing cases with this tag)\n# replay: bin/check %s --replay <this file>\n%s\n# oracle: %s\n" % (pid, tag, why, cnt, pid, c, ans)
+            if tag in by_phase:
+                body += "# this case fails only with the history of its run (an earlier case of the same process): it failed again when %s was re-executed, not when replayed alone\n" % by_phase[tag]
             if problems:
                 body += "# broken obligations at the same time:\n" + "".join("#   %s %s\n" % (p[0], p[1]) for p in problems)
             path = write_replay(pid, tag or "fail", body)
